@@ -1829,11 +1829,23 @@ fn run_space(ctx: &Ctx, rep: &mut Report, sp: &Space) {
 
 /// one expression in one syntactic position
 fn process_position(base: &Base, node: &Node, pos: &str, acc: &mut Acc) {
+    process_position_src(base, node, pos, None, acc)
+}
+
+/// `flat`: the expression is written as this text (without the parentheses `Base::src` adds) and `node` is its reading
+/// under the C precedence and associativity rules
+fn process_position_src(base: &Base, node: &Node, pos: &str, flat: Option<&str>, acc: &mut Acc) {
     let info = base.eval(node);
-    let src = base.src(node);
+    let src = match flat {
+        Some(f) => f.to_string(),
+        None => base.src(node),
+    };
     acc.evals += 1;
     acc.add("compilation_units", 1);
-    let rp = || replay_text(base, node, pos);
+    let rp = || match flat {
+        Some(f) => format!("kind: flat\nposition: {}\nflat: {}\n{}", pos, f, replay_text(base, node, pos).replacen("kind: expr\n", "", 1)),
+        None => replay_text(base, node, pos),
+    };
     let bl = || blame(base, node);
     let wa = || node_wrong(base, node);
     let zo = || zero_origin(base, node);
@@ -1925,12 +1937,28 @@ fn process_position(base: &Base, node: &Node, pos: &str, acc: &mut Acc) {
             let case = Case { position: pos, expr: &src, info: &dinfo, replay: &rp, blame: &bl, wrong_alone: &wa, zero_origin: &zo };
             judge(acc, &case, &v[0].0, v[0].1.as_ref());
         }
-        "emit-enum" | "emit-case" | "emit-global" => process_emitted(&case, pos, acc),
+        "emit-enum" | "emit-case" | "emit-global" | "emit-array" => process_emitted(&case, pos, acc),
         _ => acc.count("unknown_position"),
     }
 }
 
-const EMIT_POSITIONS: [&str; 3] = ["emit-enum", "emit-case", "emit-global"];
+/// C precedence of the binary operators (higher binds tighter); all are left associative
+fn flat_prec(op: Bop) -> u8 {
+    match op {
+        Bop::Mul | Bop::Div | Bop::Mod => 10,
+        Bop::Add | Bop::Sub => 9,
+        Bop::Shl | Bop::Shr => 8,
+        Bop::Lt | Bop::Le | Bop::Gt | Bop::Ge => 7,
+        Bop::Eq | Bop::Ne => 6,
+        Bop::And => 5,
+        Bop::Xor => 4,
+        Bop::Or => 3,
+        Bop::LAnd => 2,
+        Bop::LOr => 1,
+    }
+}
+
+const EMIT_POSITIONS: [&str; 4] = ["emit-enum", "emit-case", "emit-global", "emit-array"];
 
 /// `-?digits[uUlL]*` -> value
 fn parse_emitted_int(t: &str) -> Option<i128> {
@@ -1968,6 +1996,13 @@ fn process_emitted(case: &Case, pos: &str, acc: &mut Acc) {
             let sw = if matches!(v, Val::Un(_) | Val::Eu(_)) { "uint" } else { "int" };
             (format!("{}int f({} x) {{ switch (x) {{ case {}: return 1; default: return 0; }} }}\n", PRELUDE, sw, case.expr), "case ", ':')
         }
+        "emit-array" => {
+            // array sizes are positive; the declaration is never instantiated in memory by a source-to-source compiler
+            if n < 1 {
+                return;
+            }
+            (format!("{}struct SA {{ float marr[{}]; }};\nfloat f(SA s) {{ return s.marr[0]; }}\n", PRELUDE, case.expr), "marr[", ']')
+        }
         _ => {
             let ty = match v {
                 Val::Un(_) | Val::Eu(_) => "uint",
@@ -1979,7 +2014,7 @@ fn process_emitted(case: &Case, pos: &str, acc: &mut Acc) {
     };
     // values a conversion to the 32-bit type of the position may produce from an untyped literal
     let accepted: Vec<i128> = match v {
-        Val::L(x) => vec![x, x as i32 as i128, x as u32 as i128],
+        Val::L(x) if pos != "emit-array" => vec![x, x as i32 as i128, x as u32 as i128],
         _ => vec![n],
     };
     for cfg in [Cfg::Dx, Cfg::Msl] {
@@ -2301,6 +2336,44 @@ pub fn run(ctx: &Ctx) -> i32 {
             process_position(b, &b.nodes[id as usize], pos, acc);
         });
         rep.absorb("emitted_constants", r);
+    }
+
+    // F: unparenthesised chains `a op1 b op2 c` over literal leaves: the parser's grouping is the C one
+    {
+        let flat_leaves: Vec<u32> = ["0", "1", "2", "3", "(-1)", "5u", "true"].iter().filter_map(|t| base.leaves.iter().position(|l| l.0 == *t).map(|i| i as u32)).collect();
+        let mut index: HashMap<(u8, u32, u32), u32> = HashMap::new();
+        for (i, n) in base.nodes.iter().enumerate() {
+            if let Node::Bin(op, a, b) = n {
+                index.entry((*op as u8, *a, *b)).or_insert(i as u32);
+            }
+        }
+        let (no, nl) = (ALL_BOP.len() as u64, flat_leaves.len() as u64);
+        let off = offset + 10_000_000;
+        let b = &base;
+        let (fl, ix) = (&flat_leaves, &index);
+        let r = run_par(ctx, no * no * nl * nl * nl, 256, |idx, acc| {
+            acc.cur_index = off + idx;
+            let mut d = Vec::new();
+            crate::util::decode(idx, &[nl, nl, nl, no, no], &mut d);
+            let (op1, op2) = (ALL_BOP[d[4] as usize], ALL_BOP[d[3] as usize]);
+            let (x, y, z) = (fl[d[2] as usize], fl[d[1] as usize], fl[d[0] as usize]);
+            let left_first = flat_prec(op1) >= flat_prec(op2);
+            let node = if left_first {
+                match ix.get(&(op1 as u8, x, y)) {
+                    Some(i) => Node::Bin(op2, *i, z),
+                    None => return,
+                }
+            } else {
+                match ix.get(&(op2 as u8, y, z)) {
+                    Some(i) => Node::Bin(op1, x, *i),
+                    None => return,
+                }
+            };
+            let flat = format!("{} {} {} {} {}", b.leaves[x as usize].0, op1.sym(), b.leaves[y as usize].0, op2.sym(), b.leaves[z as usize].0);
+            process_position_src(b, &node, "global", Some(&flat), acc);
+        });
+        rep.cov("flat_chain_leaves", Json::Int(nl as i64));
+        rep.absorb("flat_operator_chains", r);
     }
 
     // enum successor
